@@ -95,6 +95,58 @@ def _heights(rng, N, kind, L):
     raise ValueError(kind)
 
 
+GCTM_GENERAL = ["regular", "irregular"]
+GCTM_THIN = ["ground-alone", "regular-L=N-1", "strong-ground"]
+
+
+def _gctm_profile(rng, it, NMAX, fams):
+    """(family, heights, strengths, L) for GCTM.  Families: the two general ones (regular / irregular heights, any N), and three in
+    which the equal-thickness slabs are non-empty but as thinly filled as the domain allows, so that the starting guess has layers
+    EXACTLY at input heights: `ground-alone` (the lowest slab holds nothing but a ground layer at h = 0, the next layer lies above
+    the first slab edge; in 60 % a strong ground layer), `regular-L=N-1` (regular grid from 0, every slab but the top one holds one
+    layer), `strong-ground` (any heights shifted to start at 0, the ground layer carries 0.5-5 x the rest).  A fifth of the
+    profiles has integer-typed heights (whole metres, int64 / int32)."""
+    fam = fams[it % len(fams)]
+
+    def strengths(N):
+        return numpy.array([rng.uniform(0.02, 1) ** rng.randint(1, 4) for _ in range(N)])
+    if fam == "ground-alone":
+        L = rng.randint(2, 5)
+        N = rng.randint(L + 1, 30)
+        top = rng.choice([rng.uniform(5000, 25000), float(rng.randint(5, 25)) * 1000.0])
+        step = top / L
+        hs = [0.0] + [rng.uniform(step * (i + 0.05), step * (i + 1)) for i in range(1, L)]
+        while len(hs) < N - 1:
+            hs.append(rng.uniform(step * 1.02, top))
+        h = numpy.array(sorted(hs + [top]))
+        p = strengths(len(h))
+        if rng.random() < 0.6:
+            p[0] = p.sum() * rng.uniform(0.3, 3)
+    elif fam == "regular-L=N-1":
+        N = rng.randint(3, 6)
+        L = N - 1
+        h = numpy.linspace(0.0, rng.choice([float(rng.randint(1, 25)) * 1000.0, rng.uniform(1000, 25000)]), N)
+        p = strengths(N)
+    else:
+        N = rng.randint(3, NMAX) if it % 6 else rng.randint(NMAX + 1, 100)
+        L = rng.randint(1, min(N - 1, 5))
+        if it < 10:
+            L = min(N - 1, 1 + it % 5)            # every L in every run
+        if fam == "strong-ground":
+            h = _heights(rng, N, rng.choice(["regular", "irregular"]), L)
+            h = h - h.min()
+            p = strengths(N)
+            p[0] = p.sum() * rng.uniform(0.5, 5)
+        else:
+            h = _heights(rng, N, fam, L)
+            p = strengths(N)
+    p = p * 10 ** rng.uniform(-14, -12)
+    if rng.random() < 0.2:
+        h = numpy.round(h).astype(rng.choice(["int64", "int32"]))
+        fam += ":int-heights"
+    return fam, h, p, L
+
+
 def _roundup_profile(rng, N, L):
     """regular heights for which fl((hmax-hmin)/fl((hmax-hmin)/L)) > L: numpy.arange then makes L+1 edges (D13)"""
     for _ in range(400):
@@ -277,7 +329,35 @@ def my_moments(hs, cs, L):
     return numpy.array([float(numpy.sum(cs * hs ** k)) for k in range(2 * L - 1)])
 
 
-def oracle_gctm(pc, h, p, L):
+def proj_grad(x, L, m0):
+    """max-norm of the projected gradient of GCTM's objective sum_i (M_i(x) - m0_i)^2 at x = (h_1..h_L, c_1..c_L) under the bounds
+    x >= 0 (analytic; a component at the bound 0 that wants to go negative is dropped) — the quantity L-BFGS-B compares with its
+    pgtol = 1e-5 to decide that a point is already stationary"""
+    hs, cs = numpy.asarray(x[:L], dtype=float), numpy.asarray(x[L:], dtype=float)
+    r = my_moments(hs, cs, L) - m0
+    g = numpy.zeros(2 * L)
+    for i in range(2 * L - 1):
+        if i >= 1:
+            g[:L] += 2.0 * r[i] * i * cs * hs ** (i - 1)
+        g[L:] += 2.0 * r[i] * hs ** i
+    g = numpy.where((numpy.asarray(x) <= 0) & (g > 0), 0.0, g)
+    return float(numpy.abs(g).max())
+
+
+# "the optimiser moved": when the equivalent-layers starting guess is measurably NOT a solution — projected gradient of the
+# scaled objective >= PG_MIN = 1e-3 (100 x L-BFGS-B's stopping threshold pgtol = 1e-5) and relative norm of the moment residual
+# >= RES_MIN = 1e-4 — the returned layers must differ from the starting guess (largest change of a scaled variable >= MOVE_MIN)
+# and have a strictly smaller moment residual (f1 <= (1 - 1e-6) f0).  Measured on the unchanged tree, 17 658 profiles of the five
+# GCTM families below (6 seeds; 7471 of them with a starting height of exactly 0): the result equals the start in 232 cases, ALL
+# with projected gradient < 1e-5 (largest 9.98e-6 = pgtol); one further case in 9 700 (projected gradient 3.3e-4, but f0 = 4e-14,
+# relative residual 4.5e-9: finite-difference gradient of a squared residual that small is noise, the line search gives up).
+# Inside the guarded region (16 382 profiles, 93 %): never unmoved, smallest move 1.7e-6, largest f1/f0 = 0.76.
+PG_MIN, RES_MIN, MOVE_MIN = 1e-3, 1e-4, 1e-9
+
+
+def oracle_gctm(pc, h, p, L, stats=None, bands=True):
+    """`bands`: apply the per-L accuracy bands GCTM_BAND (calibrated on the general families only; the thinly filled families
+    GCTM_THIN come within 1.3 x of them on the unchanged tree, so they are judged by every other clause)"""
     out = []
     HS, CS = 10000.0, 100e-15
     h0, p0 = h.copy(), p.copy()
@@ -298,10 +378,30 @@ def oracle_gctm(pc, h, p, L):
     if not f1 <= f0 * (1 + 1e-9) + 1e-24 * float((m0 ** 2).sum()):
         out.append(("gctm:worse-than-start", "moment residual %r of the result exceeds %r of its own starting guess (N=%d, L=%d)"
                     % (f1, f0, len(p), L)))
+    if L >= 2 and numpy.all(numpy.isfinite(he)) and numpy.all(numpy.asarray(ce) > 0):
+        x0 = numpy.hstack([numpy.asarray(he, dtype=float) / HS, numpy.asarray(ce, dtype=float) / CS])
+        x1 = numpy.hstack([hL / HS, cL / CS])
+        pg0, res0 = proj_grad(x0, L, m0), math.sqrt(f0 / float((m0 ** 2).sum()))
+        if pg0 >= PG_MIN and res0 >= RES_MIN:
+            move = float(numpy.abs(x1 - x0).max())
+            if stats is not None:
+                stats["guarded"] = stats.get("guarded", 0) + 1
+                stats["guarded:start-height-0"] = stats.get("guarded:start-height-0", 0) + int(x0[0] == 0.0)
+                stats["min-move"] = min(stats.get("min-move", float("inf")), move)
+                stats["max-f1/f0"] = max(stats.get("max-f1/f0", 0.0), f1 / f0)
+            if not move >= MOVE_MIN:
+                out.append(("gctm:returns-starting-guess", "GCTM returned its own starting guess (the equivalent layers h=%s) unchanged although "
+                            "that guess does not reproduce the moments: relative moment residual %.3g (worst single moment off by %.3g), "
+                            "projected gradient of the scaled objective %.3g (the optimiser's stopping threshold is 1e-5) (N=%d, L=%d)"
+                            % (numpy.asarray(he).tolist(), res0, float(numpy.max(numpy.abs(my_moments(x0[:L], x0[L:], L) - m0) / m0)),
+                               pg0, len(p), L)))
+            elif not f1 <= f0 * (1 - 1e-6):
+                out.append(("gctm:no-improvement", "GCTM's result has moment residual %r, not smaller than %r of its starting guess, although the "
+                            "projected gradient there is %.3g (N=%d, L=%d)" % (f1, f0, pg0, len(p), L)))
     relk = numpy.abs(m1 - m0) / m0
     rel, rel0 = float(numpy.max(relk)), float(relk[0])
     resn = float(numpy.linalg.norm(m1 - m0) / numpy.linalg.norm(m0))
-    band, band0, bandn = GCTM_BAND[min(L, 5)]
+    band, band0, bandn = GCTM_BAND[min(L, 5)] if bands else (float("inf"),) * 3
     if not rel0 <= band0:
         out.append(("gctm:total-cn2", "moment 0 (the total Cn2) of the result is off by %.3g (relative), allowed %.3g for L=%d (N=%d): "
                     "sum %r vs %r" % (rel0, band0, L, len(p), float(cL.sum()), float(p0.sum()))))
@@ -375,7 +475,9 @@ def run(chk):
         "checks that the residual does not exceed that of the starting guess and that the scaled moments stay inside per-L bands "
         "calibrated on the repaired tree (GCTM_BAND: L=1 exact to 1e-12; L=2..5 up to 35-50 % on the worst single moment, 3-40 % "
         "on the total Cn2, 3-10 % on the norm of the moment vector — the measured accuracy of L-BFGS-B's default tolerances, see "
-        "notes/asbuilt/C18.md); the worst values of each run are recorded in the evidence notes",
+        "notes/asbuilt/C18.md); the worst values of each run are recorded in the evidence notes; and, when the starting guess is "
+        "measurably not a solution (projected gradient >= 1e-3, relative residual >= 1e-4), that the result differs from the "
+        "starting guess and has a strictly smaller residual (what 'the optimiser ran' means for scipy's stopping rules; measured)",
         "og_heights_subset_sorted ('heights in increasing order') has the hypothesis hmono: the INPUT heights are strictly "
         "increasing (descending input comes back descending: theorem og_heights_descending_input); the part that needs no "
         "ordering (returned heights are input heights at strictly increasing layer indices, one per group) is "
@@ -778,13 +880,11 @@ def run(chk):
     # ---------------------------------------------------------------- GCTM
     n_g = 60 if quick else 1000
     worst = {}
+    moved = {}
     def _body_gctm(it):
-        N = rng.randint(3, NMAX) if it % 6 else rng.randint(NMAX + 1, 100)
-        L = rng.randint(1, min(N - 1, 5))
-        if it < 10:
-            L = min(N - 1, 1 + it % 5)            # every L in every run
-        h = _heights(rng, N, ["regular", "irregular"][it % 2], L)
-        p = numpy.array([rng.uniform(0.02, 1) ** rng.randint(1, 4) for _ in range(N)]) * 10 ** rng.uniform(-14, -12)
+        thin = it >= n_g
+        fam, h, p, L = _gctm_profile(rng, it - n_g if thin else it, NMAX, GCTM_THIN if thin else GCTM_GENERAL)
+        N = len(h)
         with numpy.errstate(all="ignore"):
             he, ce = pc.equivalent_layers(h, p, L)
         if not (numpy.shape(ce) == (L,) and numpy.all(numpy.asarray(ce) > 0) and numpy.all(numpy.isfinite(he))):
@@ -792,11 +892,16 @@ def run(chk):
             return
         chk.case(("gctm", N, L, it))
         chk.count("gctm:L=%d" % L)
+        chk.count("gctm:family=%s" % fam)
+        if float(numpy.asarray(he)[0]) == 0.0:
+            chk.count("gctm:starting guess has a layer at h = 0")
         chk.oracle_cases += 1
-        replay = {"call": "GCTM", "L": L, "h": _fl(h), "p": _fl(p), "h_hex": _hex(h), "p_hex": _hex(p)}
+        replay = {"call": "GCTM", "L": L, "h": _fl(h), "p": _fl(p), "h_hex": _hex(h), "p_hex": _hex(p),
+                  "dtypes": [str(h.dtype), str(p.dtype), None], "bands": not thin}
         try:
-            fails, rel = oracle_gctm(pc, h, p, L)
-            worst[L] = tuple(max(a, b) for a, b in zip(worst.get(L, (0.0, 0.0, 0.0)), rel))
+            fails, rel = oracle_gctm(pc, h, p, L, moved, bands=not thin)
+            if not thin:
+                worst[L] = tuple(max(a, b) for a, b in zip(worst.get(L, (0.0, 0.0, 0.0)), rel))
         except Exception as ex:
             fails = [("gctm:exception", "GCTM raised %s: %s" % (type(ex).__name__, ex))]
         for key, what in fails:
@@ -819,11 +924,17 @@ def run(chk):
                     corr_fail("minfunc: model %s vs _moments_minfunc %r (L=%d)" % (ans, fv, L))
             op("minfunc %d %s %s" % (L, _hex(x), _hex(mom)), chk_mf)
             chk.corr_cases += 2
-    for it in range(n_g):
+    n_thin = 30 if quick else 600
+    for it in range(n_g + n_thin):
         guarded('gctm', _body_gctm, it)
     chk.notes.append("GCTM accuracy measured in this run (numeric only), L: (worst relative error of a scaled moment, of moment 0 = "
                      "total Cn2, relative norm of the moment residual) — "
                      + "; ".join("L=%d: (%.3g, %.3g, %.3g) allowed (%g, %g, %g)" % ((L,) + worst[L] + GCTM_BAND[L]) for L in sorted(worst)))
+    chk.notes.append("GCTM 'the optimiser moved' clause (start measurably off: projected gradient >= %g, relative residual >= %g): applied to "
+                     "%d of the L >= 2 profiles (%d with a starting height of exactly 0); smallest move of a scaled variable %.3g (must be >= %g), "
+                     "largest residual ratio f1/f0 %.3g (must be <= 1 - 1e-6)"
+                     % (PG_MIN, RES_MIN, moved.get("guarded", 0), moved.get("guarded:start-height-0", 0), moved.get("min-move", float("nan")),
+                        MOVE_MIN, moved.get("max-f1/f0", float("nan"))))
 
     # ---------------------------------------------------------------- sequences of compressions on the SAME arrays
     # a caller compresses one profile with several methods / several L: every call must see the profile the caller holds.
@@ -912,7 +1023,7 @@ def replay(rec):
     elif call == "optimal_grouping":
         fails = oracle_og(pc, h, p, r["L"], r["R"], r["numpy_seed"], r.get("exact", False), r.get("exact_cost", False))
     else:
-        fails = oracle_gctm(pc, h, p, r["L"])[0]
+        fails = oracle_gctm(pc, h, p, r["L"], bands=r.get("bands", True))[0]
     for key, what in fails:
         print("STILL FAILS [%s] %s" % (key, what))
     if not fails:
